@@ -63,7 +63,8 @@ EXTENDS Integers, Sequences, FiniteSets, TLC, Json, CSV, IOUtils
 
 CONSTANTS Walkers,      \* subset of AllWalkers
           Ns,           \* file sizes in units
-          MaxFaults,    \* 0..3
+          MaxFaults,    \* 0..3: faults per file of at most SmallN units (larger files: at most 2)
+          SmallN,
           Guarded,      \* BOOLEAN
           K             \* the linear bound: steps <= K * (n + 1)
 
@@ -158,11 +159,12 @@ Fault(f, u, c) == [f |-> f, u |-> u, c |-> c]
 Effective(wk, nn, x) == ClassVal(wk, nn, x.c) # Default(wk, nn, x.f, x.u)
 SingleFaults(wk, nn) == {x \in {Fault(s[1], s[2], c) : s \in FaultSites(wk, nn), c \in Classes} : Effective(wk, nn, x)}
 Site(x) == <<x.f, x.u>>
+FaultBound(nn) == IF nn <= SmallN THEN MaxFaults ELSE MinI(MaxFaults, 2)
 FaultSets(wk, nn) ==
-  LET S == SingleFaults(wk, nn) IN
-  {{}} \cup (IF MaxFaults >= 1 THEN {{x} : x \in S} ELSE {})
-       \cup (IF MaxFaults >= 2 THEN {{x, y} : x \in S, y \in S} \ {{x} : x \in S} ELSE {})
-       \cup (IF MaxFaults >= 3 THEN {{x, y, z} : x \in S, y \in S, z \in S} ELSE {})
+  LET S == SingleFaults(wk, nn)   mf == FaultBound(nn) IN
+  {{}} \cup (IF mf >= 1 THEN {{x} : x \in S} ELSE {})
+       \cup (IF mf >= 2 THEN {{x, y} : x \in S, y \in S} ELSE {})
+       \cup (IF mf >= 3 THEN {{x, y, z} : x \in S, y \in S, z \in S} ELSE {})
 Distinct(F) == \A x, y \in F : x # y => Site(x) # Site(y)
 
 \* the value of a field of the (corrupted) file
@@ -286,7 +288,7 @@ Spec == Init /\ [][Next]_vars /\ WF_vars(Next)
 
 (* ------------------------------ properties ----------------------------- *)
 TypeOK == /\ st.pos \in 0..(n + 1) /\ st.apos \in 0..(n + 1) /\ st.steps \in 0..Cap
-          /\ Cardinality(flt) <= MaxFaults
+          /\ Cardinality(flt) <= FaultBound(n)
 Halts == <>(st.halted)
 Linear == st.steps <= K * (n + 1)
 \* a walker that has not halted can always take a step (termination is never by getting stuck)
